@@ -149,7 +149,7 @@ pub fn dispatch(mode: &str, f: &[Vec<u8>]) -> Option<R> {
             let r = SliceResolve { data: &out, ints: vec![], opts: ParseOptions::strict() };
             let mut lx = Lexer::new(&out);
             match parse_with_lexer(&mut lx, &r, ParseFlags::ANY) {
-                Ok(q) => Ok(vec![canon(&q, &r), lx.get_pos().to_string().into_bytes(), n.to_string().into_bytes()]),
+                Ok(q) => { let p = lx.get_pos(); Ok(vec![canon(&q, &r), p.to_string().into_bytes(), n.to_string().into_bytes(), out.get(p..n).map(|x| x.to_vec()).unwrap_or_default()]) }
                 Err(e) => Err(ekind(&e)),
             }
         }
